@@ -48,6 +48,10 @@ func (p c07) Run(c *core.Ctx) {
 		p.ppHolder(c)
 		return
 	}
+	if c.Index%16 == 5 {
+		p.aliasTag(c)
+		return
+	}
 	// few types => many same-typed providers
 	pool := world.TypesAll
 	k := 2 + c.Rng.Intn(5)
@@ -116,6 +120,10 @@ func literalNameHolder(c *core.Ctx, id int, sc *world.Scenario, mixName, mixOthe
 			ft = singles[c.Rng.Intn(len(singles))]
 			if c.Rng.Intn(2) == 0 {
 				ft = singles[c.Rng.Intn(5)]
+			}
+			if c.Rng.Intn(8) == 0 {
+				// a field of a defined pointer type (type RefT00 *T00): wired by name like a *T00 field
+				ft = []reflect.Type{world.TypeRefT00, world.TypeRefT03}[c.Rng.Intn(2)]
 			}
 			mix = mixName
 			mix.POptional = 0.7
@@ -403,4 +411,52 @@ func (p c07) ppHolder(c *core.Ctx) {
 		}
 	}
 	c.Nontrivial(fmt.Sprintf("ppholder|%v|%s", req >= 0, g.Sc.GraphSig()))
+}
+
+// aliasTag: by-name points that reach the container through a user-defined scanner (its own tag mapped to
+// wire, no defaults of its own) obey the same rules: the named component or an error / an untouched field.
+func (p c07) aliasTag(c *core.Ctx) {
+	g := world.NewG(c.Rng)
+	ia := g.AddNode([]int{0, 1, 3}[c.Rng.Intn(3)], "present-ia")
+	g.AddNode([]int{2, 13}[c.Rng.Intn(2)], "present-ib") // not an IA
+	g.ShuffleOrders()
+	variant := c.Rng.Intn(4) // 0 present, 1 absent required, 2 wrong type required, 3 absent / wrong type optional
+	name, args := "present-ia", ""
+	switch variant {
+	case 1:
+		name = "absent-name"
+	case 2:
+		name = "present-ib"
+	case 3:
+		name, args = []string{"absent-name", "present-ib"}[c.Rng.Intn(2)], []string{",required=false", ",Required=false"}[c.Rng.Intn(2)]
+	}
+	tag := world.WireTag("inject", name+args)
+	h := world.NewHolder(world.BuildStruct([]world.FieldSpec{{Name: "F", Type: world.TypeIA, Tag: tag}, {Name: "Ok", Type: world.TypeAny, Tag: world.WireTag("inject", "present-ib")}}))
+	r := world.Start(g.Sc, world.Options{Extra: []any{h, world.NewAliasScanner()}})
+	c.Count("starts", 1)
+	c.Count("alias_tag_starts", 1)
+	detail := failDetail(g.Sc, r, map[string]any{"field": "F IA `" + tag + "`"})
+	if abnormal(r.Outcome()) {
+		c.Fail("", "by-name point found by a user-defined scanner: "+core.Short(r.OutcomeDetail(), 300), detail)
+		return
+	}
+	f := reflect.ValueOf(h).Elem().Field(0).Interface()
+	switch variant {
+	case 0:
+		if r.Outcome() != "ok" || f != any(r.Nodes[ia]) {
+			c.Fail("", fmt.Sprintf("%s names a registered, fitting component: outcome %s, field %v", tag, r.Outcome(), f), detail)
+			return
+		}
+	case 1, 2:
+		if r.Outcome() != "error" {
+			c.Fail("", fmt.Sprintf("%s (required, found by a user-defined scanner) names no fitting component, but the start succeeded with the field %v", tag, f), detail)
+			return
+		}
+	default:
+		if r.Outcome() != "ok" || f != nil {
+			c.Fail("", fmt.Sprintf("%s (optional) names no fitting component: outcome %s, field %v (expected a successful start and an untouched field)", tag, r.Outcome(), f), detail)
+			return
+		}
+	}
+	c.Nontrivial(fmt.Sprintf("aliastag|%d|%s", variant, tag))
 }
